@@ -39,6 +39,7 @@ REQUIRED_BRANCHES = ['chi', 'cpd', 'auto_names', 'explicit_names', 'input_file',
                      'rerun_other_criterion', 'rerun_auto_names', 'rerun_explicit_names',
                      'good_explicit_names', 'bad_explicit_names', 'rerun_good_explicit_names', 'rerun_bad_explicit_names',
                      'input_single', 'both_criteria', 'falsy_threshold', 'thr_int', 'thr_np_float64', 'thr_np_int64',
+                     'near_threshold_below', 'near_threshold_above', 'fine_threshold', 'model_dir_relative', 'model_dir_absolute',
                      'call_keyword', 'call_positional', 'call_mixed', 'call_input_keyword', 'input_via_copy', 'input_via_deepcopy',
                      'input_via_pickle', 'dup_names', 'flags_edited_in_place', 'flags_edited_shared_array', 'ndata_changed_by_edit',
                      'edit_list_input', 'edit_file_input', 'edit_flips_side', 'fitted_inputs', 'fitted_input_file', 'fitted_input_list', 'fitted_mixed']
@@ -55,6 +56,8 @@ N = {'quick': 260, 'thorough': 25000}
 N_FITTED = {'quick': 16, 'thorough': 1000}
 NUMTYPES = ['float', 'float', 'int', 'np.float64', 'np.int64']
 META = ('/models/dir', ['F0', 'F1'], None)
+# the package directory as the records name it: absolute, relative, not normalised (it must come back as given)
+MODEL_DIRS = ['/models/dir', 'models_rel', './pkgs/../pkgs/m1', 'a/b/', '../elsewhere/models', '/abs//double/./dir']
 # how the two output files are named: both automatic (<input>_good / <input>_bad), both explicit, or one of each
 NAME_MODES = ['auto', 'explicit', 'good_explicit', 'bad_explicit']
 
@@ -257,6 +260,18 @@ def add_flag_edit(rng, case, how=None, force=None):
     return case
 
 
+def near_threshold_case(kind, v, inp, names):
+    """best values just off the threshold on both sides: v(1 -/+ 1e-6) and v -/+ 1e-4 (rounding the best value, or an
+    isclose comparison, would move them onto or across the threshold; the exact comparison does not)"""
+    sources = []
+    for k, best in enumerate([v * (1 - 1e-6), v * (1 + 1e-6), v - 1e-4, v + 1e-4, v * (1 - 3e-4), v * (1 + 3e-4)]):
+        flags = [[1, 1, 1, 1], [1, 4, 2], [1], [4, 1, 0, 9, 1], [1, 1], [1, 3, 1]][k]
+        nd = n_data_of(flags)
+        c0 = best if kind == 'chi' else best * nd
+        sources.append(dict(chi2=[c0, ef.js(ef.INF)], flags=flags, fluxes=k % 2 == 0))
+    return dict(sources=sources, kind=kind, v=v, names=names, input=inp, near=True)
+
+
 def fitted_case(rng):
     """inputs are what Fitter.fit returns (Quantity arrays, filters with Quantity wavelengths and an Extinction object in
     meta, model_fluxes present); sources, thresholds and the history are drawn at run time from thr_seed"""
@@ -334,6 +349,8 @@ def gen_cases(seed, tier):
         yield c
     for i in range(3):
         yield add_flag_edit(r(26 + i), gen_case(r(26 + i), nsrc=4, inp=['list', 'file', 'list'][i], kind='cpd', bests=mixed))
+    for i, (kind, v) in enumerate([('chi', 10.), ('cpd', 3.), ('chi', 0.0104), ('cpd', 0.0104), ('chi', 123.4567), ('cpd', 2.00005)]):
+        yield near_threshold_case(kind, v, ['file', 'list'][i % 2], 'explicit')
     for i in range(4):
         yield dict(fitted_case(r(30 + i)), input=['file', 'list'][i % 2], names='explicit')
     if tier == 'thorough':
@@ -372,7 +389,8 @@ def build_infos(case):
         pay = ef.payload(n, with_fluxes=s['fluxes'], nflux=len(s['flags']), ids=[(7 * i + j) % 11 for j in range(n)])
         pay['av'] = [a + 100 * i for a in pay['av']]
         info = ef.build_info(chi2, pay, flags=s['flags'],
-                             source_name='same' if (case.get('dup_names') and i % 3 != 2) else 'src%02d' % i, meta=META)
+                             source_name='same' if (case.get('dup_names') and i % 3 != 2) else 'src%02d' % i,
+                             meta=(MODEL_DIRS[int(common.canon_hash(case), 16) % len(MODEL_DIRS)], META[1], META[2]))
         # the caller keeps the flag array it hands to the Source (the setter stores it without a copy)
         shared = np.array(s['flags'], dtype=int)
         info.source.valid = shared
@@ -514,6 +532,7 @@ def property_side(case):
             br.add('input_via_' + via)
         before = [record_state(i) for i in infos]
         meta0 = meta_state(infos[0].meta)
+        br.add('model_dir_absolute' if os.path.isabs(meta0[0]) and os.path.normpath(meta0[0]) == meta0[0] else 'model_dir_relative')
         ids = [b['x'] for b in before]                       # the source's position identifies it (names may repeat)
         path = os.path.join(d, 'input.fitinfo')
         if case['input'] == 'file':
@@ -628,6 +647,13 @@ def property_side(case):
                 return (False, '%s: good file holds sources %r; sources whose best chi2 (per point) is below the threshold(s): %r '
                         '(best chi2 %r, per point %r)' % (what, gi, want_good, [ef.js(crit(s, 'chi')) for s in sources],
                                                          [ef.js(crit(s, 'cpd')) for s in sources]), br, None, None, None, True)
+            for s_ in sources:
+                for k_ in given:
+                    x_, t_ = crit(s_, k_), float(call[k_])
+                    if math.isfinite(x_) and t_ != 0 and abs(x_ - t_) <= 5e-4 * max(1., abs(t_)):
+                        br.add('near_threshold_below' if x_ < t_ else 'near_threshold_above')
+                    if t_ != 0 and round(t_, 3) != t_:
+                        br.add('fine_threshold')
             shape = 'all_good' if len(gi) == nsrc else 'all_bad' if not gi else 'mixed'
             br.add(shape)
             if 'fitted' in case and shape == 'mixed':
